@@ -28,6 +28,9 @@ func WorkerMain(hs map[string]Harness) {
 	trace := flag.Bool("trace", false, "print the trace when replaying")
 	maxv := flag.Int("maxviol", 3, "stop after this many distinct violations")
 	knownFile := flag.String("known", "", "JSON file with a list of signatures of open known findings")
+	shrinkList := flag.String("shrinklist", "", "replay file: write one candidate replay file per smaller scenario into -out")
+	normalise := flag.String("normalise", "", "replay file: re-execute it and write the exact decision logs of that execution to -outfile")
+	outFile := flag.String("outfile", "", "output file for -normalise")
 	nomin := flag.Bool("nominimise", false, "write unminimised replay files")
 	hashlog := flag.String("hashlog", "", "file for one line per run: run, trace hash, steps (determinism self-test)")
 	flag.Parse()
@@ -45,6 +48,41 @@ func WorkerMain(hs map[string]Harness) {
 			panic(p)
 		}
 	}()
+	if *shrinkList != "" || *normalise != "" {
+		name := *shrinkList + *normalise
+		b, err := os.ReadFile(name)
+		var rp Replay
+		if err == nil {
+			err = json.Unmarshal(b, &rp)
+		}
+		if err != nil {
+			fmt.Fprintf(os.Stderr, "worker: %v\n", err)
+			os.Exit(2)
+		}
+		sc, err := h.Decode(rp.Scenario)
+		if err != nil {
+			fmt.Fprintf(os.Stderr, "worker: %v\n", err)
+			os.Exit(2)
+		}
+		if *shrinkList != "" {
+			os.MkdirAll(*out, 0o755)
+			for i, cand := range h.Shrink(sc) {
+				c := rp
+				c.Scenario, _ = json.Marshal(cand)
+				c.Describe = h.Describe(cand)
+				c.Minimised = true
+				cb, _ := json.MarshalIndent(&c, "", " ")
+				os.WriteFile(fmt.Sprintf("%s/cand-%04d.json", *out, i), cb, 0o644)
+			}
+			os.Exit(0)
+		}
+		o, _ := h.Execute(sc, ReplayConfig(&rp, true), &Stats{})
+		CheckOutcome(o)
+		rp.Sched, rp.Draws, rp.TraceHash, rp.Steps, rp.Trace = o.Sched, o.Draws, o.Hash, o.Steps, o.Trace
+		nb, _ := json.MarshalIndent(&rp, "", " ")
+		os.WriteFile(*outFile, nb, 0o644)
+		os.Exit(0)
+	}
 	if *replay != "" {
 		b, err := os.ReadFile(*replay)
 		if err != nil {
